@@ -51,25 +51,31 @@ def replay_instances(ctx):
     out = [
         # reservations: total and per-IP caps, refresh from another IP, relayed link, disconnect with a
         # limited connection left, expiry / collection; connects only as probes for a reservation
-        inst("rsvp", "rsvp", ("time", "updown", "probe"), static=("b1", "a2")),
-        # per-ASN cap (IPv6), an address without IP, ACL on reservations
-        inst("asn", "asn", ("time", "updown", "probe"), static=("n1", "b2", "b3"), MaxRes=3, MaxPerIP=2, MaxPerASN=1),
+        # (also: the client leaving before the answer is written, Relay.Close)
+        inst("rsvp", "rsvp", ("time", "updown", "probe", "rabort", "close"), static=("b1", "a2")),
+        # per-ASN cap (IPv6), an address without IP, ACL on reservations (no connects)
+        inst("asn", "asn", ("time", "updown"), static=("n1", "b2", "b3"), MaxRes=3, MaxPerIP=2, MaxPerASN=1, MaxAtt=0),
         # the hop/stop handshake with a failure at each of its exits, two attempts racing on the counters
         inst("conn", "conn", ("updown", "cabort", "abort"), static=("b2",), faults=ALL_FAULTS, MaxAtt=2, MaxCirc=1,
              DataLimit=1, Chunks="{1}", MaxRes=3, MaxPerIP=2),
         # one circuit of a limited relay: payloads around the data limit in each direction, duration,
         # handshake time-out, half-close, reset
-        inst("data", "data", ("updown", "sclose", "abort", "time", "cabort", "quietreserve"), static=("a2",), faults=("open", "reset", "nonok"),
-             MaxRes=3, MaxPerIP=2, TTL=3),
+        inst("data", "data", ("updown", "sclose", "abort", "time", "cabort", "quietreserve"), static=("a2",),
+             faults=("open", "reset", "nonok"), MaxRes=3, MaxPerIP=2, TTL=3),
         # the same without limits
-        inst("nolimit", "data", ("sclose", "abort", "time", "quietreserve"), static=("a1", "a2"), faults=("reset",), Limited="FALSE",
-             MaxRes=3, MaxPerIP=2, TTL=3, Chunks="{2}"),
+        inst("nolimit", "data", ("sclose", "abort", "time", "quietreserve"), static=("a1", "a2"), faults=("reset",),
+             Limited="FALSE", MaxRes=3, MaxPerIP=2, TTL=3, Chunks="{2}"),
     ]
     if ctx.tier == "thorough":
         out += [
+            # every connection dynamic
             inst("rsvp-full", "rsvp", ("time", "updown", "probe", "rabort", "close"), static=()),
-            inst("conn2", "conn", ("updown", "cabort", "abort"), static=("a2", "b2"), faults=ALL_FAULTS, MaxAtt=2, MaxCirc=2,
-                 DataLimit=1, Chunks="{1}", MaxRes=3, MaxPerIP=2),
+            # MaxCircuits 2: the caps are reached by two attempts of the same peer
+            inst("conn2", "conn", ("updown", "abort"), static=("a2", "b2", "r1", "a3"), faults=("open", "nonok"), MaxAtt=2,
+                 MaxCirc=2, DataLimit=1, Chunks="{1}", MaxRes=3, MaxPerIP=2),
+            # longer circuits: data limit 4 with writes of 1, 3 and 5 bytes, duration 3 units
+            inst("data-big", "data", ("updown", "sclose", "abort", "time", "cabort", "quietreserve"), static=("a2",),
+                 faults=("reset",), MaxRes=3, MaxPerIP=2, TTL=3, DataLimit=4, Chunks="{1, 3, 5}", Duration=3),
         ]
     return out
 
@@ -78,10 +84,12 @@ def exhaustive_instances(ctx):
     """Bigger instances checked exhaustively only."""
     if ctx.tier == "thorough":
         return [
+            # handshakes racing with expiry, collection, handshake time-out and circuit deadlines
             inst("conn-time", "conn", ("updown", "cabort", "abort", "time"), static=("a2", "b2", "r1"),
                  faults=("open", "reset", "nonok"), MaxAtt=2, MaxCirc=1, DataLimit=1, Chunks="{1}", MaxRes=3, MaxPerIP=2),
-            inst("conn3", "conn", ("updown", "cabort", "abort"), static=("a2", "b2"), faults=ALL_FAULTS, MaxAtt=3, MaxCirc=2,
-                 DataLimit=1, Chunks="{1}", MaxRes=3, MaxPerIP=2),
+            # three attempts in flight, MaxCircuits 2
+            inst("conn3", "conn", ("updown", "abort"), static=("a2", "b2", "r1", "a3"), faults=("open", "nonok"), MaxAtt=3,
+                 MaxCirc=2, DataLimit=1, Chunks="{1}", MaxRes=3, MaxPerIP=2),
         ]
     return []
 
@@ -112,11 +120,13 @@ def _expect_violated(args):
 
 def _edge_stats(g):
     st = collections.Counter()
-    for _s, op, _t in g.edges:
+    for sk, op, _t in g.edges:
         n = op["name"]
         st[n] += 1
         if n == "connect":
             st["connect:" + op["exit"]] += 1
+            if op["exit"] in ("hs", "swrite") and g.states[sk][RSVP][op["d"]] < 0:
+                st["connect:served-by-expired-uncollected-reservation"] += 1
         elif n == "reserve":
             st["reserve:" + op["why"]] += 1
             if op["why"] != "ok" and op["why"] in ("total", "ip", "asn", "noip") and op["live"]:
@@ -230,7 +240,8 @@ REQUIRED_KINDS = (
     "reserve:refused-refresh", "tick:collected", "down:reservation-dropped",
     "connect:hs", "connect:relayed", "connect:acl", "connect:norsvp", "connect:srccap", "connect:dstcap",
     "connect:mem", "connect:badpeer", "connect:open", "connect:svc", "connect:smem", "connect:swrite",
-    "connect:h_svc", "connect:h_mem", "connect:h_bad",
+    "connect:h_svc", "connect:h_mem", "connect:h_bad", "connect:served-by-expired-uncollected-reservation",
+    "reserve:aborted", "close",
     "stop:ok", "stop:reset", "stop:wrongtype", "stop:nonok", "stop:response-write-error",
     "fwd:truncated", "fwd:limit-reached", "tick:handshake-timeout", "tick:deadline", "down:ended",
     "down:source-cut-in-handshake", "sclose", "abort", "cabort",
